@@ -183,6 +183,38 @@ def r_cumulative(ctx: Ctx, model):
             lim = res.get("limits")
             ctx.ob(isinstance(lim, tuple) and len(lim) == 2, Finding("C16.P-cumul", fi.where, "psd_mesoporous|limits-missing", "result lacks the (minimum, maximum) limits"))
     ctx.floor("psd_mesoporous window paths", npaths, 40)
+    # P-limits: which points are used, on a concrete pressure grid with limits that fall strictly between grid points
+    import bisect
+    R = sp.Rational
+    grid = [R(5, 100), R(2, 10), R(4, 10), R(6, 10), R(8, 10), R(95, 100), R(995, 1000)]
+    Vc = [S(f"U{i}") for i in range(len(grid))]
+
+    def searchsorted(I, a, k, n):
+        arr = [sp.nsimplify(x) for x in a[0].items]
+        side = k.get("side", a[2] if len(a) > 2 else "left")
+        x = sp.nsimplify(a[1])
+        return sp.Integer(bisect.bisect_right(arr, x) if side == "right" else bisect.bisect_left(arr, x))
+    saved_ss = I.ext["numpy.searchsorted"]
+    I.ext["numpy.searchsorted"] = searchsorted
+    I.overrides["pygaps.utilities.pygaps_utilities.get_iso_loading_and_pressure_ordered"] = lambda I, fi_, env, n: (Vec(list(grid)), Vec(list(Vc)))
+    ctx.rule("P-limits: on a concrete pressure grid the points handed to the method are exactly those strictly inside the requested limits "
+             "(default limits 0.1 .. 0.99), in order")
+    for limits in ((R(1, 10), R(7, 10)), (R(3, 10), None), (None, R(9, 10)), None, (R(1, 10), R(99, 100))):
+        lo = limits[0] if limits and limits[0] else (R(1, 10) if limits is None else None)
+        hi = limits[1] if limits and limits[1] else (R(99, 100) if limits is None else None)
+        want = [g for g in grid if (lo is None or g > lo) and (hi is None or g < hi)]
+        kw = {"psd_model": "BJH", "pore_geometry": "cylinder", "branch": "des", "p_limits": limits}
+        seen.clear()
+        outs = I.explore(lambda I: I.call_func(fi, [iso()], dict(kw), None))
+        oks = [o for o in outs if o.kind == "ok"]
+        got = [sp.nsimplify(x) for x in seen["used"][1]] if oks and "used" in seen else [repr(o)[:80] for o in outs[:2]]
+        ctx.ob(bool(oks) and got == want, Finding("C16.P-limits", fi.where, f"psd_mesoporous|points-used|limits={limits}",
+                                                  f"psd_mesoporous(p_limits={limits}) on pressures {[str(g) for g in grid]} uses the points "
+                                                  f"{[str(x) for x in got]}; required {[str(x) for x in want]}: only points inside the pressure limits may enter "
+                                                  "the calculation (the cumulative curve must end at the highest pressure inside them)"),
+               nontrivial_key=("limits", str(limits)))
+    I.ext["numpy.searchsorted"] = saved_ss
+    I.overrides["pygaps.utilities.pygaps_utilities.get_iso_loading_and_pressure_ordered"] = lambda I, fi_, env, n: (Vec(list(p)), Vec(list(V)))
     # an explicitly requested meniscus geometry is the one the Kelvin model gets (the inferred one is only a default)
     cap = {}
 
@@ -223,6 +255,55 @@ def r_kelvin(ctx: Ctx, model):
     verdict, wit = decide_zero(val - want)
     ctx.ob(verdict == "zero", Finding("C16.P-kelvin", kjs.where, "kelvin_radius_kjs", f"KJS radius = {val}; required {want}"),
            nontrivial_key=("kjs",))
+    # KJS is calibrated for the cylindrical meniscus only: every other geometry is refused (a silently accepted one reports radii of
+    # the wrong equation - "Kelvin radii obey the Kelvin equation for each meniscus geometry")
+    Ik = make_interp(model)
+    Ik.sympy_mode = True
+    for men in ("hemispherical", "hemicylindrical", "flat", "spherical"):
+        outs = Ik.explore(lambda I: I.call_func(kjs, [sp.Rational(1, 2), men, sp.Integer(77), sp.Integer(1), sp.Integer(28), sp.Integer(9)], {}, None))
+        ok = bool(outs) and all(o.kind == "raise" and o.exc.is_a("ParameterError") for o in outs)
+        ctx.ob(ok, Finding("C16.P-kelvin", kjs.where, f"kelvin_radius_kjs|{men}|not-refused",
+                           f"kelvin_radius_kjs(meniscus_geometry={men!r}) -> {[repr(o)[:60] for o in outs[:1]]}; the KJS correction applies to the cylindrical "
+                           "meniscus only and must refuse any other with a ParameterError"), nontrivial_key=("kjs-refuse", men))
+    # standard-isotherm thickness curves: outside the tabulated pressures the interpolator holds the end values (0 below, the LAST
+    # tabulated thickness above) - widths must keep increasing with pressure
+    mt = "pygaps.characterisation.models_thickness"
+    ls = model.func(f"{mt}.load_std_isotherm")
+    Il = mk_interp(model)
+    capi = {}
+    Il.overrides["pygaps.parsing.csv.isotherm_from_csv"] = lambda I, fi_, env, n: Obj(kind="StdIso", label="std", attrs={"properties": {"monolayer uptake [mmol/g]": S("nm0")}})
+    Il.libmeth[("StdIso", "pressure")] = lambda I, v, a, k, n: Vec([S("q0"), S("q1"), S("q2")])
+    Il.libmeth[("StdIso", "loading")] = lambda I, v, a, k, n: Vec([S("l0"), S("l1"), S("l2")])
+    Il.overrides[f"{mt}.convert_to_thickness"] = lambda I, fi_, env, n: Vec([S("t0"), S("t1"), S("t2")])
+
+    def interp1d(I, a, k, n):
+        capi["x"], capi["y"], capi["kw"] = a[0], a[1], dict(k)
+        return Obj(kind="Interp1d", label="interp")
+    Il.ext["scipy.interpolate.interp1d"] = interp1d
+    for nm_ in ("importlib.resources.files", "importlib_resources.files"):
+        Il.ext[nm_] = lambda I, a, k, n: Obj(kind="ResourceDir", label="resources")
+    Il.libmeth[("ResourceDir", "joinpath")] = lambda I, v, a, k, n: Obj(kind="ResourceDir", label="resource")
+    Il.libmeth[("ResourceDir", "__truediv__")] = Il.libmeth[("ResourceDir", "joinpath")]
+    std = Il.global_value(mt, "STANDARD_ISOTHERMS")
+    if not isinstance(std, dict) or not std:
+        raise AnalysisError("anchor missing: models_thickness.STANDARD_ISOTHERMS")
+    name0 = next(iter(std))
+    Il.const_overrides[(mt, "_LOADED")] = {}
+    outs = Il.explore(lambda I: (capi.clear(), I.call_func(ls, [name0], {}, None), dict(capi))[2])
+    okl = len(outs) >= 1 and all(o.kind == "ok" for o in outs)
+    if okl:
+        c = outs[0].value
+        fv = c.get("kw", {}).get("fill_value")
+        xs, ys = c.get("x"), c.get("y")
+        okl = isinstance(xs, Vec) and isinstance(ys, Vec) and [str(x) for x in xs.items] == ["q0", "q1", "q2"] and [str(x) for x in ys.items] == ["t0", "t1", "t2"] \
+            and isinstance(fv, tuple) and len(fv) == 2 and zero(sp.sympify(fv[0])) and fv[1] == S("t2") and c["kw"].get("bounds_error") is False
+        why = f"interp1d(x={xs!r}, y={ys!r}, {c.get('kw')})"
+    else:
+        why = f"outcomes {[repr(o)[:80] for o in outs[:2]]}"
+    ctx.ob(okl, Finding("C16.P-width", ls.where, "load_std_isotherm|extrapolation",
+                        f"the standard-isotherm thickness curve is built as {why}; required interp1d(pressure, thickness, bounds_error=False, "
+                        "fill_value=(0, thickness[-1])): above the tabulated range the thickness must hold its last (largest) value, otherwise reported "
+                        "widths collapse and decrease with pressure"), nontrivial_key=("std-thickness",))
     I = make_interp(model)
     gm = model.func(f"{MK}.get_meniscus_geometry")
     for (branch, geom), want in MENISCUS.items():
